@@ -10,7 +10,7 @@ use std::fmt::Write as _;
 use std::{env, fs, path::PathBuf};
 
 fn main() {
-    for v in ["RECSIM_SEED", "RECSIM_SWARM", "RECSIM_CORPUS", "RECSIM_CAPS", "RECSIM_PLANS"] {
+    for v in ["RECSIM_SEED", "RECSIM_SWARM", "RECSIM_CORPUS", "RECSIM_CAPS", "RECSIM_PLANS", "RECSIM_EXCLUDE"] {
         println!("cargo:rerun-if-env-changed={}", v);
     }
     let seed: u64 = env::var("RECSIM_SEED").ok().and_then(|s| s.parse().ok()).unwrap_or(20260926);
@@ -28,12 +28,19 @@ fn main() {
         _ => simgen::definition_set(seed, n_swarm, corpus, &simgen::SwarmOpts::default()),
     };
 
+    // definitions whose generated module was found not to compile (reported by the driver after a failed
+    // build): left out and counted as pipeline failures
+    let exclude: Vec<usize> = env::var("RECSIM_EXCLUDE").unwrap_or_default().split(',').filter_map(|s| s.trim().parse().ok()).collect();
     let mut registry = String::new();
     let mut mods = String::new();
     let mut failures = Vec::new();
     let mut layouts = String::new();
     for (i, plan) in plans.iter().enumerate() {
         let modname = format!("def_{:03}", i);
+        if exclude.contains(&i) {
+            failures.push(format!("{}: generated module does not compile", plan.name));
+            continue;
+        }
         // a definition the pipeline cannot build or generate is skipped and counted (C13 is not
         // decided here)
         let built = match std::panic::catch_unwind(|| simgen::build(plan)) {
